@@ -102,6 +102,16 @@ def check(run, driver):
     thorough = run.tier == "thorough"
     rng = run.rng
     FLOOR = 0.1
+    # ---- translator: the rate handed to rng.poisson in the double loop is regenerated from the CURRENT source and proved equal
+    #      to the model's poissonRate with floor 0.1 (the function rate_formula / rate_ge_floor / rate_eq are about), for all inputs
+    import gen_tables
+    try:
+        src = gen_tables.poisson_rate_obligation_source()
+        ok, out = gen_tables.obligation_standalone("ObC18", src)
+        run.oblige("ObC18 Poisson rate line regenerated from the source = model's poissonRate (floor 0.1), for all lambda, coupling, adjacency, previous row, node", ok, out if not ok else "")
+        run.extra["translator"] = "poisson_coupled_oscillators rate line translated (loop nest + straight-line subset -> Lean over Rat)"
+    except gen_tables.Untranslatable as e:
+        run.extra["translator"] = f"UNTRANSLATABLE ({e}) -- the rate computation is outside the recognised loop shape; the obligation is not established on this run and the property is decided by the recorded rate arguments of every rng.poisson call alone"
     reqs, meta = [], []
     nlin = 120 if thorough else 40
     for it in range(nlin):
